@@ -31,13 +31,26 @@ def prog(ctor: int, k: int, npool: int, o1: int, a1: int, o2: int, a2: int, o3: 
         class P(param.Parameterized):
             c = param.Parameter(default=O[0], constant=True)
             d = param.Parameter(default=None, constant=True)
+            k = param.Parameter(default=O[0], constant=True, allow_refs=True)
             r = param.Parameter(default=O[0], readonly=True)
 
         class Q(P):
             pass
-    ctor = pick(ctor, 0, 1)
-    p = Q(c=O[1]) if ctor else Q()
-    held = {'c': O[1] if ctor else O[0], 'd': None}
+    ctor = pick(ctor, 0, 2)
+    if ctor == 2:
+        # a constant given a reference that has nothing to deliver yet (param.Skip): the instance keeps the default object
+        with untraced():
+            class _S(param.Parameterized):
+                n = param.Integer(default=0)
+            _src = _S()
+
+            @param.depends(_src.param.n)
+            def skipping(n):
+                raise param.Skip
+        p = Q(k=skipping)
+    else:
+        p = Q(c=O[1]) if ctor else Q()
+    held = {'c': O[1] if ctor == 1 else O[0], 'd': None, 'k': O[0]}
     held_name = p.name
     stack = []   # open edit_constant contexts
     for step, (o, a) in enumerate(((o1, a1), (o2, a2), (o3, a3), (o4, a4), (o5, a5))[:k]):
@@ -66,7 +79,7 @@ def prog(ctor: int, k: int, npool: int, o1: int, a1: int, o2: int, a2: int, o3: 
                 held[pname] = v
         elif o == 2:    # class-level set on declaring class / subclass: allowed, must not affect the existing instance
             K = P if a % 2 == 0 else Q
-            pname = 'c' if a < 2 else 'd'
+            pname = ('c' if a < 2 else 'd') if ctor != 2 else 'k'
             res = attempt(lambda: setattr(K, pname, v))
             check('C14.class_set_leaves_instances', getattr(p, pname) is held[pname], dict(info, cls=K.__name__, pname=pname, res=res))
         elif o == 3:    # readonly at any level
@@ -94,7 +107,7 @@ def prog(ctor: int, k: int, npool: int, o1: int, a1: int, o2: int, a2: int, o3: 
             check('C14.name_constant', (res == 'ok') == (editable or nm is held_name), dict(info, res=res))
             if res == 'ok':
                 held_name = nm
-        check('C14.const_identity', p.c is held['c'] and p.d is held['d'] and p.name is held_name, info)
+        check('C14.const_identity', p.c is held['c'] and p.d is held['d'] and p.k is held['k'] and p.name is held_name, info)
         check('C14.readonly_value', p.r is O[0] and P.r is O[0] and Q.r is O[0], info)
         if not stack:
             ok = all(p.param[n].constant is True and Q.param[n].constant is True and P.param[n].constant is True
@@ -117,11 +130,13 @@ def shards(tier):
     out = []
     q = tier == 'quick'
     k = 3 if q else 4
-    for ctor in (0, 1):
+    for ctor in (0, 1, 2):
         for o1 in range(N_OPS):
             if o1 in (5, 6):
                 continue
             if q and ctor == 1 and o1 not in (0, 2, 4):
+                continue
+            if ctor == 2 and o1 not in (2, 4):
                 continue
             for o2 in range(N_OPS):
                 c = dict(ctor=ctor, k=k, o1=o1, o2=o2, npool=3 if q else 4)
